@@ -10,7 +10,7 @@
    Proofs/WorldSpec.v. *)
 From Coq Require Import List NArith.
 From HecsV Require Import Model.Types Model.Layout Model.Containers Proofs.LayoutSpec Proofs.LayoutProofs Proofs.ContSpec
-  Proofs.ContProofs1 Proofs.WorldSpec Proofs.WorldTheorems Proofs.WorldProofs1.
+  Proofs.ContProofs1 Proofs.WorldSpec Proofs.WorldTheorems Proofs.WorldProofs1 Proofs.CapsProofs.
 Import ListNotations.
 Open Scope N_scope.
 
@@ -28,6 +28,10 @@ Theorem c04_arena : c04_arena_stmt.                     Proof. exact c04_arena_p
    row of an existing archetype holding exactly that entity (indices used are < len) *)
 Theorem c04_reachable : reachable_inv_stmt.             Proof. exact reachable_inv_proof. Qed.
 
+(* the capacity shadow the correspondence check compares with the real Archetype::capacity() after every
+   operation never falls below the number of rows, whatever the operation (Model/WorldRun.v caps_after) *)
+Theorem c04_shadow : c04_shadow_stmt.                   Proof. exact c04_shadow_proof. Qed.
+
 (* non-vacuity: an over-aligned zero-sized type next to a 1-byte type *)
 Example c04_nonvacuous :
   let u : universe := [{| ti_align := 64; ti_size := 0; ti_rank := 0 |}; {| ti_align := 1; ti_size := 1; ti_rank := 1 |}] in
@@ -37,4 +41,4 @@ Proof. vm_compute. repeat split; reflexivity. Qed.
 
 Print Assumptions c04_capacity. Print Assumptions c04_dangling. Print Assumptions c04_slots.
 Print Assumptions c04_swap_remove_disjoint. Print Assumptions c04_align. Print Assumptions c04_arena.
-Print Assumptions c04_reachable.
+Print Assumptions c04_reachable. Print Assumptions c04_shadow.
